@@ -37,6 +37,7 @@ type Harness struct {
 	Kind     string // "" or "validate"
 	Stubs    map[string]string
 	Solver   string
+	Tags     string // extra build tags for load and replay
 }
 
 type Loaded struct {
@@ -142,6 +143,8 @@ func parseHarnessFile(src, pkgDir, path string) []*Harness {
 					h.Kind = val
 				case "solver":
 					h.Solver = val
+				case "tags":
+					h.Tags = val
 				case "stub":
 					kv := strings.SplitN(val, "=", 2)
 					if len(kv) == 2 {
@@ -216,6 +219,8 @@ func goEnv() []string {
 
 var targetArch = "amd64"
 
+var buildTags = ""
+
 func loadPackage(pkgDir string) (*Loaded, error) {
 	ov, _, err := overlayFor(pkgDir)
 	if err != nil {
@@ -226,6 +231,9 @@ func loadPackage(pkgDir string) (*Loaded, error) {
 		Dir:     repoDir,
 		Env:     goEnv(),
 		Overlay: ov,
+	}
+	if buildTags != "" {
+		cfg.BuildFlags = []string{"-tags=" + buildTags}
 	}
 	pkgs, err := packages.Load(cfg, "./"+pkgDir)
 	if err != nil {
